@@ -1086,10 +1086,10 @@ def run(ck):
     ck.cov["partial"] = [
         "the C matcher's algorithm is transcribed in Lean (lean/Usual/C04/CMatch.lean: scan_next/match_group/match_gend with minok, "
         "got_full_match/gm_resolve_tie/cmp_gmatches/gmatch_hist_cmp/fill_history/publish_gm) and compared with the C code on the "
-        "whole pmatch array of every execution (internal projection); cmatch_refines_llmatch is proved as "
-        "cmatch_refines_llmatch_partial for every pattern without a repeated group (atoms with counts, anchors, alternation, "
-        "plain groups nested arbitrarily, any nmatch): rc and pmatch[0] of the model = llmatch; missing: repetition of groups "
-        "(match_gend re-entry, minok, zero-length pruning, the mincnt = 0 branch)",
+        "whole pmatch array of every execution (internal projection); cmatch_refines_llmatch is PROVED IN FULL for that model: "
+        "for every tree of the parser's shape (wfL 2, repeated groups included; the driver checks the shape of every parsed "
+        "pattern at run time), subjects shorter than 32767, any flags and nmatch, rc and pmatch[0] of the model = llmatch. What "
+        "is not proved is that the C code equals the model (differential, 0 differences) and pmatch[1..] of the model",
         "sub-match offsets: pmatchOk_spec / submatch_clause_satisfiable are proved about the reference (the clause is "
         "satisfiable exactly when a match exists); the values C reports are monitored with pmatchOk, compared with the "
         "matcher model and with the AT&T table, not proved",
